@@ -163,6 +163,15 @@ impl D {
     pub fn f64(&self, j: usize) -> f64 {
         self.f64v[(self.r + j) % self.f64v.len()]
     }
+    /// `Option<T>` is not a `Value` in this version of tracing-core: usable through `?` only.
+    pub fn opt_u8(&self, j: usize) -> Option<u8> {
+        let v = self.u8(j);
+        if v % 2 == 0 {
+            Some(v)
+        } else {
+            None
+        }
+    }
     pub fn bool(&self, j: usize) -> bool {
         self.boolv[(self.r + j) % self.boolv.len()]
     }
@@ -445,6 +454,12 @@ pub fn run_all(invs: &[(u32, Inv)], data_path: &str, phases: &[String], only: Op
     let text = std::fs::read_to_string(data_path).expect("data file");
     let mut d = D::load(&text);
     d.print_refs();
+    // the compile-time level cap of this build (cargo feature `max_level_*` of `tracing`), as the crate reports it
+    {
+        use tracing::level_filters::{LevelFilter as LF, STATIC_MAX_LEVEL as S};
+        let all = [LF::OFF, LF::ERROR, LF::WARN, LF::INFO, LF::DEBUG, LF::TRACE];
+        println!("{{\"static_max\":{}}}", all.iter().position(|x| *x == S).unwrap());
+    }
     std::panic::set_hook(Box::new(|_| {}));
     for (pi, ph) in phases.iter().enumerate() {
         let mut parts = ph.split(':');
@@ -493,4 +508,20 @@ pub fn run_all(invs: &[(u32, Inv)], data_path: &str, phases: &[String], only: Op
         });
         drop(dispatch);
     }
+}
+
+/// `h_fields <data-file> [--only ID] <mode:rounds[:first]>...`
+pub fn cli_main(invs: &[(u32, Inv)]) {
+    let mut args: Vec<String> = std::env::args().skip(1).collect();
+    if args.is_empty() {
+        eprintln!("usage: h_fields <data-file> [--only ID] <mode:rounds[:first]>...");
+        std::process::exit(2);
+    }
+    let data = args.remove(0);
+    let mut only = None;
+    if args.first().map(|s| s == "--only").unwrap_or(false) {
+        args.remove(0);
+        only = Some(args.remove(0).parse().unwrap());
+    }
+    run_all(invs, &data, &args, only);
 }
